@@ -8,7 +8,7 @@ against the patched scratch tree and records whether and how the check fired. /r
 import json, os, re, shutil, subprocess, sys
 
 ROOT = os.path.dirname(os.path.dirname(os.path.abspath(__file__)))
-WT = "/tmp/wt-seedcheck"
+WT = f"/tmp/wt-seedcheck-{os.getpid()}"  # private: several sessions run this concurrently
 ENV = dict(os.environ, GOFLAGS="-mod=mod", GOPROXY="off")
 ENV.pop("GOSUMDB", None)
 
@@ -37,6 +37,7 @@ def main():
     res["applies"] = rc == 0
     if rc != 0:
         res["error"] = out[-500:]
+        sh(["git", "-C", "/repo", "worktree", "remove", "--force", WT])
         return finish(dst, meta, res)
     # where does the demo go?  first line comments name the package directory; fall back to the touched package
     touched = sorted({os.path.dirname(m) for m in re.findall(r"^\+\+\+ b/(\S+)", open(patch).read(), flags=re.M)})
@@ -48,8 +49,11 @@ def main():
         if os.path.isdir(os.path.join(WT, cand)) and any(f.endswith(".go") for f in os.listdir(os.path.join(WT, cand))):
             pkgdir = cand
             break
-    head = demo_src[:1500].lower()
-    if re.search(r"(repo(sitory)? root|root package|package ct\b|to the root)", head) or re.search(r"^package ct(_test)?\s*$", demo_src, flags=re.M):
+    # the `go test … ./pkg/` command in the header is the most reliable pointer
+    gm = re.search(r"go test[^\n]*?\s\./([A-Za-z0-9_/\.]+?)/?\s*$", demo_src[:3000], flags=re.M)
+    if gm and os.path.isdir(os.path.join(WT, gm.group(1))):
+        pkgdir = gm.group(1).rstrip("/")
+    if re.search(r"^package ct(_test)?\s*$", demo_src, flags=re.M):
         pkgdir = "."
     if pkgdir is None:
         pkgdir = touched[0] if touched else "."
@@ -85,7 +89,7 @@ def main():
     res["check_fired"] = rcc != 0 and "VIOLATION" in outc
     res["check_no_failing_input"] = "no-failing-input-found" in outc
     res["check_output"] = "\n".join(l for l in outc.splitlines() if not l.startswith("WARNING"))[-1500:]
-    sh(f"git -C {WT} checkout -q -- .; git -C {WT} clean -fdq")
+    sh(["git", "-C", "/repo", "worktree", "remove", "--force", WT])
     finish(dst, meta, res)
 
 
